@@ -8,7 +8,7 @@ __email__ = "opensource@pomfort.com"
 """
 
 from .chain import MHLChain, MHLChainGeneration
-import textwrap
+import re
 
 from lxml import etree
 from lxml.builder import E
@@ -97,7 +97,9 @@ def _write_xml_element_to_file(file, xml_element, indent: str):
 
 
 def _write_xml_string_to_file(file, xml_string: str, indent: str):
-    result = textwrap.indent(xml_string, indent)
+    # indent the lines that start with markup, never the continuation of a text value: textwrap.indent() also splits
+    # at U+2028, U+0085 etc. and put the indentation into file names that contain such a character
+    result = re.sub(r"^(?=[ \t]*<)", indent, xml_string, flags=re.MULTILINE)
     file.write(result.encode("utf-8"))
 
 
